@@ -902,7 +902,7 @@ func ruleMetaBSIWidth(r *Run, rule string) {
 				return false
 			}
 			res := g.Signature.Results()
-			return g.Signature.Recv() == nil && res.Len() == 1 && strings.HasSuffix(types.TypeString(res.At(0).Type(), nil), ".BSI") && strings.HasPrefix(g.Name(), "New")
+			return g.Signature.Recv() == nil && res.Len() == 1 && strings.HasSuffix(tstr(res.At(0).Type(), nil), ".BSI") && strings.HasPrefix(g.Name(), "New")
 		}) {
 			n++
 			name := w.Name(fn)
@@ -1053,7 +1053,7 @@ func ruleMetaTypes(r *Run, rule string, k *metaKind) {
 	if conv == nil {
 		// discover: the (interface{}) -> (int64, error) helper used by the numeric query
 		for _, fn := range w.Funcs {
-			if fn.Signature.Params().Len() == 1 && fn.Signature.Results().Len() == 2 && types.TypeString(fn.Signature.Results().At(0).Type(), nil) == "int64" &&
+			if fn.Signature.Params().Len() == 1 && fn.Signature.Results().Len() == 2 && tstr(fn.Signature.Results().At(0).Type(), nil) == "int64" &&
 				types.IsInterface(fn.Signature.Params().At(0).Type()) {
 				conv = fn
 			}
@@ -1071,11 +1071,11 @@ func ruleMetaTypes(r *Run, rule string, k *metaKind) {
 		e.Leaf = func(v ssa.Value) (string, bool) {
 			if ex, ok := v.(*ssa.Extract); ok {
 				if ta, ok := ex.Tuple.(*ssa.TypeAssert); ok {
-					return "v:" + types.TypeString(ta.AssertedType, nil), true
+					return "v:" + tstr(ta.AssertedType, nil), true
 				}
 			}
 			if ta, ok := v.(*ssa.TypeAssert); ok {
-				return "v:" + types.TypeString(ta.AssertedType, nil), true
+				return "v:" + tstr(ta.AssertedType, nil), true
 			}
 			return "", false
 		}
@@ -1117,7 +1117,7 @@ func ruleMetaTypes(r *Run, rule string, k *metaKind) {
 			if g == nil || g.Pkg != w.SPkg || len(call.Call.Args) != 4 {
 				return nil, false
 			}
-			if types.TypeString(call.Call.Args[3].Type(), nil) != "int64" {
+			if tstr(call.Call.Args[3].Type(), nil) != "int64" {
 				return nil, false
 			}
 			return call.Call.Args[3], true
@@ -1148,7 +1148,7 @@ func ruleMetaTypes(r *Run, rule string, k *metaKind) {
 	seenT := map[string]int{}
 	allInstrs(k.Add, func(in ssa.Instruction) {
 		if ta, ok := in.(*ssa.TypeAssert); ok && ta.CommaOk {
-			seenT[types.TypeString(ta.AssertedType, nil)]++
+			seenT[tstr(ta.AssertedType, nil)]++
 		}
 	})
 	for t, n := range seenT {
@@ -1191,7 +1191,7 @@ func ruleMetaKey(r *Run, rule string, k *metaKind) {
 	// existence: prefix = field + ":", candidate ⇔ len(key) >= len(prefix) ∧ key[:len(prefix)] == prefix   (or strings.HasPrefix)
 	var ex *ssa.Function
 	for _, fn := range metaQueryFuncs(w, k) {
-		if fn.Signature.Params().Len() == 1 && types.TypeString(fn.Signature.Params().At(0).Type(), nil) == "string" {
+		if fn.Signature.Params().Len() == 1 && tstr(fn.Signature.Params().At(0).Type(), nil) == "string" {
 			ex = fn
 		}
 	}
